@@ -262,6 +262,263 @@ theorem A_of_B {e : Expr} (hB : BStmt pf e) : AStmt pf e := by
     unfold parseExpr
     rw [bind_ok h2]
     exact h3
+
+/-! ### literals -/
+
+/-- `parseExprFirstTerm` on a value token hands it to `newValueNode` -/
+theorem ft_value {F : Nat} {st : PState} {t : Tk} {ts : List Tk} (hst : At st (t :: ts))
+    (hu : (t.typ == .tNot || t.typ == .tNegate) = false) (hl : (t.typ == .tLeftParen) = false) (hv : isValue t.typ = true) :
+    ∃ it st1, it.typ = t.typ ∧ it.val = t.val ∧ Just st1 it ts ∧
+      parseExprFirstTerm pf (F + 1) st = newValueNode pf F it st1 := by
+  obtain ⟨it, st1, hn, ht, hval, hj⟩ := next_at hst
+  refine ⟨it, st1, ht, hval, hj, ?_⟩
+  conv => lhs; unfold parseExprFirstTerm
+  rw [bind_ok hn]
+  have hu' : isUnaryOp it.typ = false := by rw [isUnaryOp_eq T, ht]; exact hu
+  rw [← ht] at hl hv
+  simp only [hu', hl, hv, Bool.false_eq_true, if_false, if_true]
+
+theorem ft_null (p : Nat) : FTStmt pf (.null p) := by
+  intro ts h rest F st hR hok hst hF
+  rw [Renders] at hR; subst hR
+  obtain ⟨F', rfl⟩ : ∃ F', F = F' + 1 := ⟨F - 1, by simp at hF; omega⟩
+  obtain ⟨F'', rfl⟩ : ∃ F'', F' = F'' + 1 := ⟨F' - 1, by simp at hF; omega⟩
+  obtain ⟨it, st1, ht, hv, hj, heq⟩ := ft_value pf T (F := F'' + 1) (t := tNull) hst rfl rfl rfl
+  have ht' : it.typ = .tNull := ht
+  refine ⟨.null it.pos, st1, ?_, rfl, hj.at⟩
+  rw [heq]; unfold newValueNode; simp only [ht']; rfl
+
+theorem ft_bool (p : Nat) (b : Bool) : FTStmt pf (.bool p b) := by
+  intro ts h rest F st hR hok hst hF
+  rw [Renders] at hR; subst hR
+  obtain ⟨F', rfl⟩ : ∃ F', F = F' + 1 := ⟨F - 1, by simp at hF; omega⟩
+  obtain ⟨F'', rfl⟩ : ∃ F'', F' = F'' + 1 := ⟨F' - 1, by simp at hF; omega⟩
+  obtain ⟨it, st1, ht, hv, hj, heq⟩ := ft_value pf T (F := F'' + 1) (t := tBool b) hst rfl rfl rfl
+  have ht' : it.typ = .tBool := ht
+  refine ⟨.bool it.pos (it.val == [116, 114, 117, 101]), st1, ?_, ?_, hj.at⟩
+  · rw [heq]; unfold newValueNode; simp only [ht']; rfl
+  · rw [hv]; cases b <;> simp [erase, tBool]
+
+theorem ft_int (p : Nat) (v : Int) : FTStmt pf (.int p v) := by
+  intro ts h rest F st hR hok hst hF
+  rw [Renders] at hR; obtain ⟨val, rfl, hval⟩ := hR
+  obtain ⟨F', rfl⟩ : ∃ F', F = F' + 1 := ⟨F - 1, by simp at hF; omega⟩
+  obtain ⟨F'', rfl⟩ : ∃ F'', F' = F'' + 1 := ⟨F' - 1, by simp at hF; omega⟩
+  obtain ⟨it, st1, ht, hv, hj, heq⟩ := ft_value pf T (F := F'' + 1) (t := ⟨.tInteger, val⟩) hst rfl rfl rfl
+  have ht' : it.typ = .tInteger := ht
+  have hv' : it.val = val := hv
+  refine ⟨.int it.pos v, st1, ?_, rfl, hj.at⟩
+  rw [heq]; unfold newValueNode; simp only [ht', hv', hval]; rfl
+
+theorem ft_float (p : Nat) (v : UInt64) : FTStmt pf (.float p v) := by
+  intro ts h rest F st hR hok hst hF
+  rw [Renders] at hR; obtain ⟨val, rfl, hval⟩ := hR
+  obtain ⟨F', rfl⟩ : ∃ F', F = F' + 1 := ⟨F - 1, by simp at hF; omega⟩
+  obtain ⟨F'', rfl⟩ : ∃ F'', F' = F'' + 1 := ⟨F' - 1, by simp at hF; omega⟩
+  obtain ⟨it, st1, ht, hv, hj, heq⟩ := ft_value pf T (F := F'' + 1) (t := ⟨.tFloat, val⟩) hst rfl rfl rfl
+  have ht' : it.typ = .tFloat := ht
+  have hv' : it.val = val := hv
+  refine ⟨.float it.pos v, st1, ?_, rfl, hj.at⟩
+  rw [heq]; unfold newValueNode; simp only [ht', hv', hval]; rfl
+
+theorem ft_str (p : Nat) (q v : Bytes) : FTStmt pf (.str p q v) := by
+  intro ts h rest F st hR hok hst hF
+  rw [Renders] at hR; obtain ⟨rfl, hval⟩ := hR
+  obtain ⟨F', rfl⟩ : ∃ F', F = F' + 1 := ⟨F - 1, by simp at hF; omega⟩
+  obtain ⟨F'', rfl⟩ : ∃ F'', F' = F'' + 1 := ⟨F' - 1, by simp at hF; omega⟩
+  obtain ⟨it, st1, ht, hv, hj, heq⟩ := ft_value pf T (F := F'' + 1) (t := tString q) hst rfl rfl rfl
+  have ht' : it.typ = .tString := ht
+  have hv' : it.val = q := hv
+  refine ⟨.str it.pos q v, st1, ?_, rfl, hj.at⟩
+  rw [heq]; unfold newValueNode; simp only [ht', hv', hval]; rfl
+
+/-! ### followers -/
+omit T in
+theorem okAfter_noAccess {e : Expr} {h : ItemType} (hok : okAfter e h) : noAccess h := hok.1
+
+omit T in
+/-- an operand at unary level or above is a unary or a primary: any non-access follower is fine -/
+theorem okAfter_of_unary {a : Expr} {h : ItemType} (hp : precUnary ≤ precedenceOf a) (hn : noAccess h) :
+    okAfter a h := by
+  refine ⟨hn, ?_⟩
+  cases a <;> simp [edgeOk] <;> simp [precedenceOf, precUnary, precTernary] at hp
+  case bin op _ _ _ => have := binPrec_le op; simp [precMul] at this; omega
+
+omit T in
+theorem noAccess_tokOf (op : BinOp) : noAccess (tokOf op) := by
+  cases op <;> simp [noAccess, tokOf]
+
+/-- the left operand of `op`, unparenthesised, may be followed by `op` -/
+theorem okAfter_left {a : Expr} {op : BinOp} (hp : binPrec op ≤ precedenceOf a) : okAfter a (tokOf op) := by
+  refine ⟨noAccess_tokOf T op, ?_⟩
+  cases a <;> simp [edgeOk]
+  case bin op1 _ _ _ =>
+    right; simp [precedenceOf] at hp; rw [prec_tokOf T]; exact hp
+  case tern => simp [precedenceOf, precTernary] at hp; have := binPrec_pos op; omega
+
+omit T in
+/-- the right operand of `op` inherits the follower of the whole expression -/
+theorem okAfter_right {a b : Expr} {op : BinOp} {p : Nat} {h : ItemType} (hok : okAfter (.bin op p a b) h)
+    (hp : binPrec op + 1 ≤ precedenceOf b) : okAfter b h := by
+  refine ⟨hok.1, ?_⟩
+  have he := hok.2
+  simp [edgeOk] at he
+  cases b <;> simp [edgeOk]
+  case bin op1 _ _ _ =>
+    simp [precedenceOf] at hp
+    rcases he with he | he
+    · exact Or.inl he
+    · right; omega
+  case tern => simp [precedenceOf, precTernary] at hp
+
+omit T in
+theorem stops_right {a b : Expr} {op : BinOp} {p : Nat} {h : ItemType} (hok : okAfter (.bin op p a b) h) :
+    Stops (binPrec op) h := by
+  have he := hok.2
+  simp [edgeOk] at he
+  refine ⟨?_, fun h0 => ?_⟩
+  · rcases he with he | he
+    · exact Or.inl he
+    · right; omega
+  · have := binPrec_pos op; omega
+
+theorem stops_unary {h : ItemType} : Stops (precUnary - 1) h := by
+  refine ⟨?_, fun h0 => by simp [precUnary] at h0⟩
+  cases hb : isBinaryOp h with
+  | false => exact Or.inl rfl
+  | true => right; have := binop_prec_lt T hb; omega
+
+theorem okAfter_cond {c : Expr} (hp : precElvis ≤ precedenceOf c) : okAfter c .tTernIf := by
+  refine ⟨by simp [noAccess], ?_⟩
+  have hb : isBinaryOp .tTernIf = false := by rw [isBinaryOp_eq T]; rfl
+  cases c <;> simp [edgeOk, hb]
+  case tern => simp [precedenceOf, precTernary, precElvis] at hp
+
+theorem okAfter_colon {c : Expr} (hp : precElvis ≤ precedenceOf c) : okAfter c .tColon := by
+  refine ⟨by simp [noAccess], ?_⟩
+  have hb : isBinaryOp .tColon = false := by rw [isBinaryOp_eq T]; rfl
+  cases c <;> simp [edgeOk, hb]
+  case tern => simp [precedenceOf, precTernary, precElvis] at hp
+
+theorem stops_colon (p : Nat) : Stops p .tColon := by
+  refine ⟨Or.inl ?_, by simp⟩
+  rw [isBinaryOp_eq T]; rfl
+
+omit T in
+theorem okAfter_else {c a b x : Expr} {p : Nat} {h : ItemType} (hok : okAfter (.tern p c a b) h) : okAfter x h := by
+  refine ⟨hok.1, ?_⟩
+  have he := hok.2
+  simp [edgeOk] at he
+  cases x <;> simp [edgeOk, he]
+
+omit T in
+theorem stops_else {c a b : Expr} {p : Nat} {h : ItemType} (hok : okAfter (.tern p c a b) h) : Stops 0 h := by
+  have he := hok.2
+  simp [edgeOk] at he
+  exact ⟨Or.inl he.1, fun _ => he.2.1⟩
+
+/-! ### unary operators -/
+
+theorem ft_not (p : Nat) {a : Expr} (hA : AStmt pf a) : FTStmt pf (.not p a) := by
+  intro ts h rest F st hR hok hst hF
+  rw [Renders] at hR; obtain ⟨ta, hS, rfl⟩ := hR
+  have hst' : At st (tNot :: (ta ++ h :: rest)) := by simpa using hst
+  simp at hF
+  obtain ⟨F', rfl⟩ : ∃ F', F = F' + 1 := ⟨F - 1, by omega⟩
+  obtain ⟨it, st1, hn, ht, hv, hj⟩ := next_at hst'
+  have ht' : it.typ = .tNot := ht
+  have hprec : precedence .tNot = precUnary - 1 := by have := T.precNot; omega
+  obtain ⟨r, st2, h2, he, h2a⟩ := hA precUnary ta h rest (precUnary - 1) 1 F' (Post a (h :: rest)) st1 hS (Nat.le_refl _)
+    (fun hp => okAfter_of_unary hp hok.1) (cont_stop pf (stops_unary T)) hj.at (by omega)
+  refine ⟨.not it.pos r, st2, ?_, ?_, h2a.at⟩
+  · unfold parseExprFirstTerm
+    rw [bind_ok hn]
+    have hu : isUnaryOp ItemType.tNot = true := by rw [isUnaryOp_eq T]; rfl
+    simp only [ht', hu, if_true, hprec]
+    rw [bind_ok h2]
+    rfl
+  · simp [erase, he]
+
+theorem ft_neg (p : Nat) {a : Expr} (hA : AStmt pf a) : FTStmt pf (.neg p a) := by
+  intro ts h rest F st hR hok hst hF
+  rw [Renders] at hR; obtain ⟨ta, hS, rfl⟩ := hR
+  have hst' : At st (tNeg :: (ta ++ h :: rest)) := by simpa using hst
+  simp at hF
+  obtain ⟨F', rfl⟩ : ∃ F', F = F' + 1 := ⟨F - 1, by omega⟩
+  obtain ⟨it, st1, hn, ht, hv, hj⟩ := next_at hst'
+  have ht' : it.typ = .tNegate := ht
+  have hprec : precedence .tNegate = precUnary - 1 := by have := T.precNeg; omega
+  have hm : precUnary ≤ negMin a := by cases a <;> simp [negMin, precUnary, precPrimary]
+  obtain ⟨r, st2, h2, he, h2a⟩ := hA (negMin a) ta h rest (precUnary - 1) 1 F' (Post a (h :: rest)) st1 hS (by omega)
+    (fun hp => okAfter_of_unary (Nat.le_trans hm hp) hok.1) (cont_stop pf (stops_unary T)) hj.at (by omega)
+  refine ⟨.neg it.pos r, st2, ?_, ?_, h2a.at⟩
+  · unfold parseExprFirstTerm
+    rw [bind_ok hn]
+    have hu : isUnaryOp ItemType.tNegate = true := by rw [isUnaryOp_eq T]; rfl
+    simp only [ht', hu, if_true, hprec]
+    rw [bind_ok h2]
+    rfl
+  · simp [erase, he]
+
+/-! ### binary operators -/
+
+theorem b_bin (op : BinOp) (pos : Nat) {a b : Expr} (hA : AStmt pf a) (hB : AStmt pf b) : BStmt pf (.bin op pos a b) := by
+  intro ts h rest p k F Q st hR hp hok hC hst hF
+  rw [Renders] at hR; obtain ⟨ta, tb, hSa, hSb, rfl⟩ := hR
+  have hlvl : p + 1 ≤ binPrec op := by
+    have := binPrec_pos op
+    simp [lvl, precedenceOf] at hp; omega
+  have hst' : At st (ta ++ tOp op :: (tb ++ h :: rest)) := by simpa using hst
+  simp at hF
+  refine hA (binPrec op) ta (tOp op) (tb ++ h :: rest) p (k + 2 + 8 * tb.length) F Q st hSa (by omega)
+    (fun hp => okAfter_left T hp) ?_ hst' (by omega)
+  intro k' a' st1 hk' hea hst1
+  obtain ⟨k'', rfl⟩ : ∃ k'', k' = k'' + 1 := ⟨k' - 1, by omega⟩
+  obtain ⟨bpos, st2, hst2, heq⟩ := exprLoop_bin pf T (F := k'') (p := p) (e := a') hst1 hlvl
+  obtain ⟨rb, st3, h3, heb, h3a⟩ := hB (binPrec op + 1) tb h rest (binPrec op) 1 k'' (Post b (h :: rest)) st2 hSb (by omega)
+    (fun hp => okAfter_right hok hp) (cont_stop pf (stops_right hok)) hst2 (by omega)
+  obtain ⟨r, st4, h4, hQ⟩ := hC k'' (.bin op bpos a' rb) st3 (by omega) (by simp [erase, hea, heb]) h3a.at
+  refine ⟨r, st4, ?_, hQ⟩
+  rw [heq, bind_ok h3]
+  exact h4
+
+/-! ### the ternary -/
+
+theorem b_tern (pos : Nat) {c a b : Expr} (hCc : AStmt pf c) (hA : AStmt pf a) (hB : AStmt pf b) :
+    BStmt pf (.tern pos c a b) := by
+  intro ts h rest p k F Q st hR hp hok hC hst hF
+  rw [Renders] at hR; obtain ⟨tc, ta, tb, hSc, hSa, hSb, rfl⟩ := hR
+  have hp0 : p = 0 := by simp [lvl, precedenceOf, precTernary] at hp; exact hp
+  subst hp0
+  have hst' : At st (tc ++ tTernIf :: (ta ++ tColon :: (tb ++ h :: rest))) := by simpa using hst
+  simp at hF
+  refine hCc precElvis tc tTernIf (ta ++ tColon :: (tb ++ h :: rest)) 0 (k + 3 + 8 * ta.length + 8 * tb.length) F Q st hSc
+    (Nat.zero_le _) (fun hp => okAfter_cond T hp) ?_ hst' (by omega)
+  intro k' c' st1 hk' hec hst1
+  obtain ⟨k'', rfl⟩ : ∃ k'', k' = k'' + 1 := ⟨k' - 1, by omega⟩
+  obtain ⟨k3, rfl⟩ : ∃ k3, k'' = k3 + 1 := ⟨k'' - 1, by omega⟩
+  obtain ⟨st2, hst2, heq⟩ := exprLoop_tern pf T (F := k3 + 1) (e := c') hst1
+  obtain ⟨ra, st3, h3, hea, h3a⟩ := hA precElvis ta tColon (tb ++ h :: rest) 0 1 k3 (Post a (tColon :: (tb ++ h :: rest))) st2 hSa
+    (Nat.zero_le _) (fun hp => okAfter_colon T hp) (cont_stop pf (stops_colon T 0)) hst2 (by omega)
+  obtain ⟨it4, st4, h4, _, _, hj4⟩ := expect_at h3a.at
+  obtain ⟨rb, st5, h5, heb, h5a⟩ := hB 0 tb h rest 0 1 k3 (Post b (h :: rest)) st4 hSb
+    (Nat.zero_le _) (fun _ => okAfter_else hok) (cont_stop pf (stops_else hok)) hj4.at (by omega)
+  obtain ⟨it6, h6, ht6, _⟩ := peek_at1 h5a
+  have hne : (it6.typ != ItemType.tColon) = true := by
+    have := hok.2; simp [edgeOk] at this; rw [ht6]; simp [this.2.2]
+  obtain ⟨r, st7, h7, hQ⟩ := hC (k3 + 1) (.tern c'.pos c' ra rb) st5 (by omega) (by simp [erase, hec, hea, heb]) h5a.at
+  have h7' := exprLoop_stop1 pf (F := k3) (p := 0) (e := .tern c'.pos c' ra rb) h5a (stops_else hok)
+  rw [h7'] at h7
+  injection h7 with h7; injection h7 with hr hs; subst hr; subst hs
+  refine ⟨_, _, ?_, hQ⟩
+  rw [heq]
+  unfold parseTernary
+  rw [bind_ok h3]
+  have h4' : expect ItemType.tColon st3 = .ok (it4, st4) := h4
+  rw [bind_ok h4', bind_ok h5, bind_ok h6]
+  have hc : (it6.typ == ItemType.tColon) = false := by simpa using hne
+  simp only [hc, Bool.false_eq_true, if_false]
+  rfl
 end
 
 end SoyVerif.Lemmas.ParserRound
